@@ -404,11 +404,33 @@ def explore_config(res, group, c, root_cache):
             fs.info_cache.clear()
             obs = r.execute()
         finally:
+            world.close()
             restore()
             (fsmod.ThreadPoolExecutor, fsmod.ProcessPoolExecutor,
              fsmod.gc) = saved
         return r, world, obs
 
+    # cyclic garbage (an abandoned loader generator) must not be finalised
+    # at an allocation-dependent moment inside an execution
+    import gc
+    gc.disable()
+    try:
+        explore_loop(res, group, c, run, stats, orders, outcomes)
+    finally:
+        gc.enable()
+        gc.collect()
+    res.count("states", len(stats.states))
+    res.count("transitions", len(stats.transitions))
+    res.count("pruned_executions", stats.pruned)
+    res.maximum("choice_points", stats.max_points)
+    res.count("configurations")
+    res.add("outcomes", (repr(sorted(c.items())), tuple(sorted(outcomes))))
+    if len(outcomes) > 1:
+        res.count("configs_with_several_outcomes")
+    return orders
+
+
+def explore_loop(res, group, c, run, stats, orders, outcomes):
     for ctx, (r, world, obs) in explorer.explore(run, bound=0, prune=True,
                                                  stats=stats):
         finish_order = tuple(t for k, p, t in world.log
@@ -422,19 +444,11 @@ def explore_config(res, group, c, root_cache):
             again = run(explorer.Ctx(tuple(ctx.choices)))
             if repr(again[2]) != repr(obs):
                 res.error("NONDETERMINISM C10 %r" % (c,))
+                continue
             res.violation(bad[0], dict(group=group, cfg=c,
                                        choices=ctx.choices,
                                        schedule=[l for l, _ in ctx.labels()]),
                           bad[1], bad[2])
-    res.count("states", len(stats.states))
-    res.count("transitions", len(stats.transitions))
-    res.count("pruned_executions", stats.pruned)
-    res.maximum("choice_points", stats.max_points)
-    res.count("configurations")
-    res.add("outcomes", (repr(sorted(c.items())), tuple(sorted(outcomes))))
-    if len(outcomes) > 1:
-        res.count("configs_with_several_outcomes")
-    return orders
 
 
 class NoGC:
